@@ -154,6 +154,35 @@ def utf8_tables(R):
          % ([(hex(m), hex(q)) for m, q in mp], sh, [hex(x) for x in sb]), rel)
 
 
+def aead_siblings(F, R):
+    """crypto_data_encrypt/6 followed by crypto_data_decrypt/6 returns the plaintext only if both feed the cipher the same
+    associated data: the aad(..) option is turned into bytes with the encoding/1 option in BOTH builtins (the ciphertext
+    itself is octets on the decrypt side). Sibling agreement on the encoding argument of string_encoding_bytes per
+    argument register."""
+    enc = {}
+    for name in ("crypto_data_encrypt", "crypto_data_decrypt"):
+        fn = F.find_impl("Machine", None, name)
+        got = {}
+        for x in walk(F.hir(fn)["body"]):
+            if x["k"] == "MethodCall" and x["name"] == "string_encoding_bytes" and len(x.get("args", [])) == 2:
+                reg = [y for y in walk(x["args"][0]) if y["k"] == "Index"]
+                idx = reg[0].get("idx") or reg[0].get("index") if reg else None
+                k = (idx or {}).get("lit", {}).get("int") if idx and idx.get("k") == "Lit" else None
+                a = x["args"][1]
+                kind = "option" if a["k"] == "Path" else ("literal:" + (atom_of(a) or "?"))
+                got[k] = kind
+        enc[name] = (fn, got)
+    e, d = enc["crypto_data_encrypt"][1], enc["crypto_data_decrypt"][1]
+    if "2" not in e or "2" not in d:
+        raise AnchorLost("crypto_data_encrypt/decrypt: the aad argument (register 2) is not decoded with string_encoding_bytes (%s / %s)" % (e, d))
+    R.ob("C37:aead:associated-data-decoded-alike-in-encrypt-and-decrypt", e["2"] == d["2"] == "option",
+         "crypto_data_encrypt decodes the aad with %s, crypto_data_decrypt with %s: both must use the encoding/1 option, or a text with non-ASCII characters given as aad "
+         "authenticates on one side only and the system cannot decrypt its own ciphertext" % (e["2"], d["2"]), F.where(enc["crypto_data_decrypt"][0]))
+    R.ob("C37:aead:ciphertext-is-octets-plaintext-follows-the-option", d.get("1") == "literal:octet" and e.get("1") == "option",
+         "plaintext is decoded with %s on the encrypt side (must be the encoding/1 option), ciphertext with %s on the decrypt side (must be octet)" % (e.get("1"), d.get("1")),
+         F.where(enc["crypto_data_encrypt"][0]))
+
+
 def run(ctx, R):
     F = ctx.facts()
     R.rule("RF9 algorithm atom <-> hasher type/constant per arm; RF9 crypto.pl hash_algorithm/1 facts; RF9 base64 engine table")
@@ -195,6 +224,7 @@ def run(ctx, R):
     R.ob("C37:hash-algorithms:prolog-equals-rust", pl_algs == ra,
          "crypto.pl accepts %s; crypto_data_hash implements %s (only in Prolog: %s; only in Rust: %s)" % (sorted(pl_algs), sorted(ra), sorted(pl_algs - ra), sorted(ra - pl_algs)), "src/lib/crypto.pl")
     utf8_tables(R)
+    aead_siblings(F, R)
     # ---- base64 option table ----------------------------------------------------------------------------------
     b64 = F.find_impl("Machine", None, "chars_base64")
     h = F.hir(b64)
